@@ -925,3 +925,31 @@ refactor("c16-r-zip", "C16", BDG,
             graph.add_edge(""",
          """        for scheduled_operation, next_scheduled_operation in zip(machine_schedule, machine_schedule[1:]):
             graph.add_edge(""")
+
+# ------------------------------------------------------------------ C17
+RGU = "job_shop_lib/graphs/graph_updaters/_residual_graph_updater.py"
+GUT = "job_shop_lib/graphs/graph_updaters/_utils.py"
+_v("c17-updater-late-acquire", "C17", "mutant", "R17.b", [
+    (RGU, "        self._initialize_is_completed_observer_attribute(dispatcher)\n\n        # It is important", "        # It is important"),
+    (RGU, "            subscribe=subscribe,\n        )\n\n    def _initialize_is_completed_observer_attribute", "            subscribe=subscribe,\n        )\n        self._initialize_is_completed_observer_attribute(dispatcher)\n\n    def _initialize_is_completed_observer_attribute"),
+], "updater notified before IsCompletedObserver: machine/job nodes removed one dispatch late")
+mutant("c17-remove-scheduled", "C17", "R17.c", RGU,
+       "            completed_operations=self.dispatcher.completed_operations(),", "            completed_operations=self.dispatcher.scheduled_operations(),",
+       "nodes of running operations disappear")
+mutant("c17-no-skip-removed", "C17", "R17.c", GUT,
+       "        if job_shop_graph.removed_nodes[node_id]:\n            continue\n", "")
+mutant("c17-foreign-removal", "C17", "R17.a", GUT,
+       "        job_shop_graph.remove_node(node_id)", "        job_shop_graph.graph.remove_node(node_id)",
+       "graph changes without the mask")
+mutant("c17-unremove", "C17", "R17.a", GRAPH,
+       "        self.graph.add_edge(u_of_edge, v_of_edge, **attr)", "        self.removed_nodes[u_of_edge] = False\n        self.graph.add_edge(u_of_edge, v_of_edge, **attr)")
+mutant("c17-mask-not-flipped", "C17", "R17.a", GRAPH,
+       "        self.graph.remove_node(node_id)\n        self.removed_nodes[node_id] = True", "        self.graph.remove_node(node_id)")
+mutant("c17-out-degree", "C17", "R17.a", GRAPH,
+       "        isolated_nodes = list(nx.isolates(self.graph))", "        isolated_nodes = [n for n in self.graph if self.graph.out_degree(n) == 0]",
+       "seeded C17-s1 shape")
+mutant("c17-machine-flag-ignored", "C17", "R17.c", RGU,
+       "            if is_completed == 1 and not self.job_shop_graph.is_removed(\n                machine_node := self.job_shop_graph.get_machine_node(",
+       "            if not self.job_shop_graph.is_removed(\n                machine_node := self.job_shop_graph.get_machine_node(")
+refactor("c17-r-isremoved", "C17", GUT,
+         "        if job_shop_graph.removed_nodes[node_id]:\n            continue\n", "        if job_shop_graph.is_removed(node_id):\n            continue\n")
